@@ -1,4 +1,5 @@
 import Lemmas.Diff.Constraints
+import Lemmas.Diff.Callable
 /-!
 # C07 — autogenerate detects every supported kind of model change (SQLite)
 
@@ -769,5 +770,20 @@ concrete dialect groups are exercised by the driver on every run; here: no group
 first tokens) -/
 example : mustDiffer [] ⟨"varchar2", [], ["30"], []⟩ ⟨"integer", [], [], []⟩ = true := by decide
 example : mustDiffer [] ⟨"varchar", [], ["30"], []⟩ ⟨"varchar", [], ["40"], []⟩ = false := by decide
+
+end C07
+
+/-! ### comparison callables that defer (`compare_type=fn`, `fn(...) -> None`) -/
+namespace C07
+open Model.Diff Spec.Diff Lemmas.Diff
+
+/-- **C07.detect under deferring callables**: configuring `compare_type` / `compare_server_default`
+as callables that answer `None` ("use the default comparison", docs/build/autogenerate.rst) detects
+exactly what the default configuration detects - in particular every type-family change. -/
+theorem detect_partial_deferring (cfg : Cfg) (a : Schema) (hwf : WF a) (hok : SchemaOk cfg a) (m : Mutation)
+    (h : Applicable cfg a m) :
+    detectOk a m ((diffV {} cfg (reflect (createAll a)) (m.apply a)).map summary) = true := by
+  rw [diffV_nil]
+  exact detect_partial cfg a hwf hok m h
 
 end C07
